@@ -199,7 +199,15 @@ func VerifC08Link(nBlobs int, size int, nOps int) {
 	linked := -1 // ghost: index of the blob the name was last linked to
 	stored := make([]bool, nBlobs)
 	for op := 0; op < nOps; op++ {
-		switch verifChoice(4) {
+		switch verifChoice(5) {
+		case 4: // a Put of blob k whose source delivers other bytes of the same length
+			k := verifChoice(nBlobs)
+			err := PutBytes(c, vlDigests[k], vlBlobs[(k+1)%nBlobs])
+			if stored[k] {
+				verifAssert(err == nil, "put-for-a-stored-blob-is-a-no-op")
+			} else {
+				verifAssert(err != nil, "put-of-wrong-bytes-fails")
+			}
 		case 0: // store blob k
 			k := verifChoice(nBlobs)
 			err := PutBytes(c, vlDigests[k], vlBlobs[k])
